@@ -111,7 +111,12 @@ class StreamProxy:
 
     def read(self, *a):
         self._inst._on_rawread(self._o)
-        return self._f.read(*a)
+        data = self._f.read(*a)
+        if self._inst.garbage:
+            # fault variant "garbage": the read succeeds and delivers bytes that are not valid UTF-8
+            self._inst.garbage = False
+            return b"\xff\xfe" + data
+        return data
 
     def close(self):
         self.close_calls += 1
@@ -137,6 +142,7 @@ class Instrument:
 
     def _reset(self):
         self.fault = None
+        self.garbage = False
         self.fired = False
         self.record = False
         self.points = []
@@ -215,6 +221,9 @@ class Instrument:
         f = self.fault
         if f is not None and f[0] == kind and f[1] == a and f[2] == b and not self.fired:
             self.fired = True
+            if f[3] == "garbage":
+                self.garbage = True
+                return
             raise make_exc(f[3])
 
     # -- wrappers ----------------------------------------------------------
